@@ -337,6 +337,68 @@ pub fn run(run: &Run) {
             cp += n as u32;
         }
     });
+    // all permutations of one representative of each class an RTL label may contain (R AL AN EN ES CS ET ON BN NSM; thorough: plus L), and of
+    // the classes an LTR label may contain: state that depends on how many distinct classes were seen before another one arrives
+    for (name, classes) in [("class_permutations_rtl", run.pick(vec![1u8, 2, 6, 3, 4, 7, 5, 13, 9, 8], vec![1u8, 2, 6, 3, 4, 7, 5, 13, 9, 8, 0])), ("class_permutations_ltr", vec![0u8, 3, 4, 7, 5, 13, 9, 8])] {
+        let k = classes.len();
+        let total: u64 = (1..=k as u64).product();
+        let classes = &classes;
+        run.par(name, true, |tid, n, l| {
+            let reps = reps_for(name, tid);
+            let mut idx = tid as u64;
+            while idx < total {
+                if idx % 4096 < n as u64 && run.stopped() {
+                    return;
+                }
+                // factoradic decoding of the idx-th permutation
+                let mut pool: Vec<u8> = classes.clone();
+                let mut rem = idx;
+                let table = &reps[(idx / n as u64 % 16) as usize];
+                let mut s = String::new();
+                for i in (1..=k as u64).rev() {
+                    let j = (rem % i) as usize;
+                    rem /= i;
+                    s.push(table[pool.remove(j) as usize]);
+                }
+                l.cases += 1;
+                for p in profs {
+                    if check(run, p, &s, l).is_err() {
+                        report(run, p, &s);
+                        return;
+                    }
+                }
+                idx += n as u64;
+            }
+        });
+    }
+    // many DISTINCT characters of mixed classes, then repeats of earlier ones (per-call class memo with broken replacement)
+    {
+        let d = db();
+        let of_class = |names: &[&str], max: usize| -> Vec<char> {
+            let idx: Vec<u8> = names.iter().map(|n| ucd::bidi_idx(n)).collect();
+            (0x21u32..0x3000).filter(|cp| d.u16.listed[*cp as usize] && idx.contains(&d.u16.bidi[*cp as usize])).filter_map(char::from_u32).take(max).collect()
+        };
+        let r = of_class(&["R"], 120);
+        let al = of_class(&["AL"], 120);
+        let neutral = of_class(&["ON", "ES", "CS", "ET"], 120);
+        let en = of_class(&["EN"], 30);
+        let an = of_class(&["AN"], 30);
+        let nsm = of_class(&["NSM"], 60);
+        let mut all = Vec::new();
+        for mix in [vec![&r[..], &neutral[..]], vec![&r[..], &neutral[..], &en[..]], vec![&al[..], &an[..], &neutral[..]], vec![&r[..], &al[..], &nsm[..]], vec![&r[..], &r[..], &r[..], &neutral[..]], vec![&al[..]], vec![&r[..], &en[..], &al[..], &neutral[..], &nsm[..]]] {
+            let pool = super::pipe::interleave(&mix, 200);
+            all.extend(super::pipe::distinct_runs_with_repeats(&pool, ""));
+        }
+        super::pipe::battery(run, "distinct_mixed_runs_with_repeats", &all, &|s, l| {
+            for p in profs {
+                if check(run, p, s, l).is_err() {
+                    report(run, p, s);
+                    return false;
+                }
+            }
+            true
+        });
+    }
     // (c) random
     let mk = || {
         let by = &crate::gens::pools().by_bidi16;
